@@ -26,6 +26,48 @@ def is_subsequence(a, b):
     return all(any(x == y for y in it) for x in a)
 
 
+# ---- sessions (operators applied in sequence to a pool of tracks)
+NAMES = ["f", "g", "h"]          # the feature names of the sessions
+
+
+def s_tag(k, i):
+    """tag of observation i of the k-th initial track of a session"""
+    return 100 * k + i
+
+
+def s_val(tag, nm, gen=0):
+    """the value observation `tag` holds for feature `nm` (gen = how many features its track had created before)"""
+    return tag * 100 + NAMES.index(nm) * 10 + gen
+
+
+def s_layout(hist):
+    """names (in column order) and generation of each after a creation / removal history"""
+    names, gen, n = [], {}, 0
+    for a, nm in hist:
+        if a == "c":
+            if nm not in names:
+                names.append(nm)
+                gen[nm] = n
+            n += 1
+        elif nm in names:
+            names.remove(nm)
+    return names, gen
+
+
+NEW_OPS = ("extract", "span", "spantrack", "add", "step", "pattern", "gt", "lt", "slice")   # return a new track
+INPLACE_OPS = ("sort", "insert", "insertat", "addobs", "remove", "removeobs", "removefirst", "removelast", "pop")
+READ_OPS = ("get", "read", "column")
+LATE, LATE_VAL = "w", 7          # a feature created on ONE track after the operators (last operation of a session), same value everywhere
+
+
+def reads_from_raw(pts, names, cols):
+    """what every observation reads under every listed name, from the raw feature lists and the column indices"""
+    out = {}
+    for nm, c in zip(names, cols):
+        out[nm] = [r[2 + c] if 2 + c < len(r) else "I" for r in pts]
+    return out
+
+
 class P(Prop):
     id = "C04"
     design_ref = "DESIGN.md section 5, C04 and appendix A.5"
@@ -35,39 +77,87 @@ class P(Prop):
         (M, "TV.C04.insertionIndex_no_index_error", "T1 whole function: on every list __getInsertionIndex returns an index 0..N without reading outside 0..N-1 (no IndexError, no negative wrap); the model as run gives the same"),
         (M, "TV.C04.insertionIndexFrom_spec", "T2: on sorted timestamps (N>=2), any first step 2^j with 2*2^j<=N: result = number of timestamps <= ts"),
         (M, "TV.C04.insertionIndex_spec", "T2 with the code's first step: countP(<= ts); for a single observation countP(< ts)"),
-        (M, "TV.C04.insert_total", "insertObs(obs) on any track = the old observations in order with the new one at some position r <= N, names unchanged"),
+        (M, "TV.C04.insert_total", "insertObs(obs) on any track = the old observations in order with the new one at some position r <= N, feature table unchanged"),
         (M, "TV.C04.insert_sorted", "T3: insertion into a time-sorted track: permutation of new::old, still non-decreasing in time"),
-        (M, "TV.C04.extract_spec", "extract(a,b) = exactly the observations a..b (both ends included), feature names carried"),
+        (M, "TV.C04.extract_spec", "extract(a,b) = exactly the observations a..b (both ends included), feature table (names and columns) carried"),
         (M, "TV.C04.extractSpanTime_spec", "extractSpanTime = exactly the observations in the closed span, bounds in either order"),
-        (M, "TV.C04.concat_spec", "t1 + t2 = observations of t1 then of t2; a common feature-name table is carried"),
+        (M, "TV.C04.concat_spec", "t1 + t2 = observations of t1 then of t2; its table is t1's when the two lists of NAMES are equal position by position, the empty table otherwise"),
         (M, "TV.C04.decimateStep_spec", "track % n = sub-sequence at the positions = 0 mod n (i-th result = (i*n)-th source)"),
         (M, "TV.C04.decimatePattern_spec", "track % pattern = sub-sequence at the positions j with pattern[j mod len] true"),
         (M, "TV.C04.dropFirst_spec", "track > n = all but the first n observations"),
         (M, "TV.C04.dropLast_spec", "track < n = all but the last n observations (empty when n >= size)"),
         (M, "TV.C04.removeByIdx_spec", "removeObsList(distinct valid indices, any order) leaves exactly the other observations, returns the count"),
         (M, "TV.C04.removeByIdx_refuses_duplicates", "an index list with a repeated index removes nothing and returns 0"),
-        (M, "TV.C04.sort_spec", "sort with ANY sorting permutation from argsort: same records (permutation), non-decreasing times, names unchanged"),
+        (M, "TV.C04.sort_spec", "sort with ANY sorting permutation from argsort: same records (permutation), non-decreasing times, feature table unchanged"),
         (M, "TV.C04.argsort_isArgsort", "the model's argsort satisfies the sorting-permutation contract"),
         (M, "TV.C04.sortByTime_spec", "sort as run by the driver: permutation of the records, non-decreasing times"),
+        # ---- the feature table (names -> columns) is carried over: reads by name
+        (M, "TV.C04.extract_carries", "extract(a,b), any integers: the result has the source's table (names and columns), each of its observations is one of the source and reads under every name what it read there"),
+        (M, "TV.C04.extractSpanTime_carries", "extractSpanTime: same (Carries)"),
+        (M, "TV.C04.extractSpanTrack_spec", "extractSpanTime(track) = the span of the other track's first and last timestamps"),
+        (M, "TV.C04.extractSpanTrack_carries", "extractSpanTime(track): Carries"),
+        (M, "TV.C04.decimateStep_carries", "track % n (any n != 0): Carries"),
+        (M, "TV.C04.decimatePattern_carries", "track % pattern: Carries"),
+        (M, "TV.C04.dropFirst_carries", "track > n (any integer): Carries"),
+        (M, "TV.C04.dropLast_carries", "track < n (any integer): Carries"),
+        (M, "TV.C04.getitemSlice_carries", "track[a:b:c] (any slice): Carries"),
+        (M, "TV.C04.sort_carries", "sort() with any permutation from argsort: table unchanged, every observation reads as before"),
+        (M, "TV.C04.removeObsList_carries", "removeObsList / removeObs / removeFirstObs / removeLastObs / popObs, any index list: table unchanged, the remaining observations read as before"),
+        (M, "TV.C04.insert_carries", "insertObs(obs) / insertObs(obs,i) / addObs(obs): table unchanged, old observations read as before, the new one reads its own value list through the table"),
+        (M, "TV.C04.table_wellformed", "the empty table is well-formed (distinct names, column = rank); createAnalyticalFeature and removeAnalyticalFeature keep a table well-formed"),
+        (M, "TV.C04.concat_carries", "t1 + t2 with equal name lists and well-formed tables: the sum has that table and EVERY observation, those of t2 too, reads under every name what it read in its own track"),
+        (M, "TV.C04.concat_names_differ", "t1 + t2 with different name lists (other set, other order, one side without features): the sum lists no feature, every read by name is an AnalyticalFeatureError"),
+        (M, "TV.C04.applyOp_good", "one operation of a session (any operator of the statement, on any tracks of the pool) keeps every track of the pool 'good': well-formed table, every observation reads its OWN value under every listed name"),
+        (M, "TV.C04.finalPool_good", "operators applied in sequence (results fed to the next operator): every track of the pool is good at the end"),
+        (M, "TV.C04.good_readAF", "on a good track, track[name, i] is the own value of the i-th observation"),
+        # ---- the other entry points
+        (M, "TV.C04.addObs_spec", "addObs appends"),
+        (M, "TV.C04.insertAt_spec", "insertObs(obs, i), 0 <= i <= size: the observation is at position i, the others in order around it"),
+        (M, "TV.C04.removeObs_spec", "removeObs(i), valid i: exactly that observation is removed, 1 returned"),
+        (M, "TV.C04.removeFirst_spec", "removeFirstObs on a non-empty track: all but the first, 1 returned"),
+        (M, "TV.C04.removeLast_spec", "removeLastObs on a non-empty track: all but the last, 1 returned"),
+        (M, "TV.C04.popObs_spec", "popObs(i), valid i: returns the i-th observation and removes exactly it"),
+        (M, "TV.C04.getitemInt_spec", "track[i] = the i-th observation; track[-(i+1)] = the (size-1-i)-th"),
+        (M, "TV.C04.getitemSlice_spec", "track[a:b:c], c >= 1: the positions s, s+c, ... < e with s, e the bounds clamped as Python does (= (track[a:b]) % c), table carried"),
+        (M, "TV.C04.getitemSlice_simple", "track[a:b], 0 <= a, b: the positions a <= j < b"),
+        (M, "TV.C04.sortRadix_spec", "sortRadix (year buckets ymin..ymax of the track, fix b323645) with the five lower digits inside their buckets and ANY years: no IndexError, a permutation, ordered lexicographically by (year, month, day, hour, min, sec*1000+ms), stable; empty track included"),
+        (M, "TV.C04.sortRadix_sorted", "sortRadix: if the lexicographic order of the fields implies the order of the timestamps, the result is non-decreasing in time and a permutation of the records"),
+        (M, "TV.C04.lex_stamps", "for two well-formed timestamps (C03's WFs) the lexicographic order of the digits sortRadix reads is the order of the epoch instants (through C03's ltS_iff)"),
+        (M, "TV.C04.sortRadix_stamps", "for EVERY track of well-formed timestamps (C03's WFs, no bound on the year) sortRadix is a stable sort by time: no exception, a permutation, non-decreasing epoch milliseconds, equal instants keep their order"),
     ]
     partial = []
     open_statements = [
-        "'without modifying the source track' cannot be stated about a purely functional model: it is checked on the real code by the oracle (the source is dumped after every operator)",
+        "'without modifying the source track' cannot be stated about a purely functional model (observations are values, tracks share none): it is checked on the real code by the oracle — every track of the pool is dumped after every operation of a session, and a feature created afterwards on one track must not appear in another's table",
+        "track[a:b:c] with a NEGATIVE step is modelled (reversed walk) and compared with the code, not covered by a theorem; sortRadix on a timestamp with a non-integer ms (TypeError) is outside the model",
         "(int)(math.log(N)/math.log(2)) = floor(log2 N) is a float computation outside the theorems: T1/T2 hold for any first step 2^j with 2*2^j <= N; the 'ilog' stream checks the expression for every N <= 2^16 (2^21 thorough) and around every 2^k, k < 40",
         "arguments with no designated observation (negative indices / counts, index >= size, zero step, empty pattern) are modelled and compared with the code but are outside the property's oracle",
     ]
-    modelled = ("Track.__getInsertionIndex (dichotomy + two fix-up loops), insertObs/insertObsInChronoOrder, sort (np.argsort = trusted call "
-                "with the contract 'sorting permutation'), removeObsList/__removeObsListById/__removeObsById, extract, extractSpanTime, "
-                "__add__, __mod__ (int and list), __gt__/__lt__ with an integer, __transmitAF; timestamps as integers (C03 proves the "
-                "field-wise order is the epoch order)")
-    trusted = ["numpy argsort on an object array: only 'returns a sorting permutation' is assumed (it is not stable for ties); "
+    modelled = ("Track.__getInsertionIndex (dichotomy + two fix-up loops), insertObs (with and without index) / insertObsInChronoOrder / addObs, "
+                "sort (np.argsort = trusted call with the contract 'sorting permutation'), sortRadix (the five fixed bucket passes and the year pass over min..max year of the track, on positions), "
+                "removeObsList/__removeObsListById/__removeObsById, removeObs / removeFirstObs / removeLastObs / popObs, extract, "
+                "extractSpanTime (two instants or a track), __add__, __mod__ (int and list), __gt__/__lt__ with an integer, "
+                "__getitem__ (integer, slice with CPython's index adjustment, (name, i) / (i, name), name), __transmitAF; the feature table "
+                "__analyticalFeaturesDico as (name, column) pairs with getObsAnalyticalFeature / getAnalyticalFeature / "
+                "createAnalyticalFeature (list or scalar) / removeAnalyticalFeature on non-reserved names; an interpreter applying these "
+                "operations in sequence to a pool of tracks. Timestamps as integers (C03 proves the field-wise order is the epoch order)")
+    trusted = ["sessions: a new observation's feature list is laid out by the harness following getListAnalyticalFeatures() (column = rank), as a caller has to",
+               "numpy argsort on an object array: only 'returns a sorting permutation' is assumed (it is not stable for ties); "
                "CPython list.insert / del / slices / negative indices modelled as documented",
                "(int)(math.log(N)/math.log(2)) modelled as floor(log2 N); the theorems hold for any first step 2^j with 2*2^j <= N"]
     rule = ("every track of size 0..6 (0..7 thorough) over the time values {1,3,5,7} x every instant 0..8 (before / equal / between / after) for "
             "insertion and for sort; every sorted track of sizes 0..70 x every instant for the insertion index; random sorted tracks with ties of "
             "sizes 2^k, 2^k+-1 up to 1025; all index pairs -1..n / spans 0..8 (reversed, empty) / steps -2..n+2 / patterns of length <= 4 / "
             "trims -2..n+2 / index lists of length <= 3 over -1..n and all subsets, on sizes <= 6; the float expression of the first step for every N <= 2^16 (2^21 thorough). "
-            "non-trivial = the track has at least 2 observations (so a loop of the operation runs)")
+            "Tracks are built through createAnalyticalFeature (one column per creation) and every dump reads every listed feature BY NAME through "
+            "getObsAnalyticalFeature; the oracle requires every observation of every result to read its own value. "
+            "Sessions: 1-3 tracks whose features are created / removed / re-created in 11 different histories (column orders f,g / g,f / g,h,f / ...), then "
+            "1-7 operators applied in sequence, each on any track of the pool (results included), every track of the pool dumped after every "
+            "operation (source-unmodified), optionally a feature created at the end on one track (table aliasing): every slice "
+            "(start, stop in None, -n-1..n+1, step in None,1,2,3,-1,-2,0), track[i], insertObs(obs,i), removeObs, popObs, the three read forms, for every i in "
+            "-n-2..n+2 on sizes 0..4; every pair of histories x '+' (also with an empty operand that carries a table); every history x every operator followed "
+            "by a second operator; 4000 (40000 thorough) random chains. sortRadix: pairs later in one field and earlier in every / one less significant field, "
+            "random tracks of 1..40 timestamps (years 1..2500, on both sides of 1970..2069 in one track too). "
+            "non-trivial = a track has at least 2 observations (so a loop of the operation runs)")
 
     # ---------------------------------------------------------------- setup / construction
     def setup(self):
@@ -75,7 +165,8 @@ class P(Prop):
         from tracklib.core.obs import Obs
         from tracklib.core import ENUCoords
         from tracklib.core.track import Track
-        self.ObsTime, self.Obs, self.ENU, self.Track = ObsTime, Obs, ENUCoords, Track
+        from tracklib.util.exceptions import AnalyticalFeatureError
+        self.ObsTime, self.Obs, self.ENU, self.Track, self.AFError = ObsTime, Obs, ENUCoords, Track, AnalyticalFeatureError
         self._fields = {}
 
     def TS(self, v):
@@ -92,10 +183,30 @@ class P(Prop):
         return o
 
     def mk(self, times, names, tag0=0):
-        tr = self.Track([self.mk_obs(tag0 + i, v, names) for i, v in enumerate(times)])
-        # the name table is the private dict name -> column (createAnalyticalFeature refuses an empty track)
-        tr._Track__analyticalFeaturesDico = {nm: k for k, nm in enumerate(names)}
+        if not times:
+            # createAnalyticalFeature refuses an empty track: an empty track WITH a table is what `track > n` leaves;
+            # here the private dict name -> column is written directly
+            tr = self.Track([])
+            tr._Track__analyticalFeaturesDico = {nm: k for k, nm in enumerate(names)}
+            return tr
+        tr = self.Track([self.mk_obs(tag0 + i, v, []) for i, v in enumerate(times)])
+        for k, nm in enumerate(names):       # the public way: one column per creation, in this order
+            tr.createAnalyticalFeature(nm, [10 * (tag0 + i) + k for i in range(len(times))])
         return tr
+
+    def read(self, tr, nm, i, form="get"):
+        """a read by NAME through the public interface: the value, "K" (unknown name), "I" (IndexError) or another error kind"""
+        try:
+            v = tr.getObsAnalyticalFeature(nm, i) if form == "get" else (tr[nm, i] if form == "ni" else tr[i, nm])
+        except self.AFError:
+            return "K"
+        except IndexError:
+            return "I"
+        except BaseException as e:
+            if isinstance(e, KeyboardInterrupt):
+                raise
+            return err_kind(e)
+        return v
 
     def dump(self, tr):
         rows = []
@@ -106,7 +217,10 @@ class P(Prop):
             d = ms - BASE * 1000
             t = d // (STEP * 1000) if d % (STEP * 1000) == 0 else "bad-time:%d" % ms
             rows.append([tag, t] + list(o.features))
-        return {"pts": rows, "names": list(tr.getListAnalyticalFeatures())}
+        names = list(tr.getListAnalyticalFeatures())
+        dico = tr._Track__analyticalFeaturesDico
+        return {"pts": rows, "names": names, "cols": [dico[nm] for nm in names],
+                "reads": {nm: [self.read(tr, nm, i) for i in range(tr.size())] for nm in names}}
 
     # ---------------------------------------------------------------- generators
     def exhaustive_scopes(self, tier):
@@ -118,7 +232,11 @@ class P(Prop):
                 "% n for n in -2..n+2; % pattern for every pattern of length 0..4; > n and < n for n in -2..n+2; on sizes 0..6",
                 "removeObsList for every index list of length <= 3 over -1..n (duplicates and out-of-range included) on sizes 0..5, "
                 "and every subset of the indices on sizes <= 6",
-                "+ for sizes 0..3 x 0..3 x equal / different / missing feature tables"]
+                "+ for sizes 0..3 x 0..3 x equal / different / missing feature tables",
+                "one-operation sessions on sizes 0..4: track[a:b:c] for a, b in None, -n-1..n+1 and c in None, 1, 2, 3, -1, -2, 0; track[i], removeObs(i), popObs(i), "
+                "insertObs(obs, i) (3 instants), track[name, i] / track[i, name] / getObsAnalyticalFeature for 3 names, for every i in -n-2..n+2; track[name]; "
+                "removeFirstObs, removeLastObs, addObs; extractSpanTime(track) for every other track of size 0..2 over {1,3,5,7}",
+                "every ordered pair of the 11 feature histories x '+' (two size pairs), the sum fed to a second operator and to '+' again, and '+' with an empty operand carrying a table"]
 
     def cases(self, rng, tier):
         out = []
@@ -213,9 +331,252 @@ class P(Prop):
             else:
                 c["t1"], c["t2"] = rng.randrange(-1, 13), rng.randrange(-1, 13)
             out.append(c)
+        out += self.session_cases(rng, tier)
+        # the sortRadix cases are slow (the code allocates 60000 buckets per call): spread them over the engine's shards
+        rad = self.radix_cases(rng, tier)
+        gap = max(1, len(out) // (len(rad) + 1))
+        for i, c in enumerate(rad):
+            out.insert(min(len(out), (i + 1) * gap + i), c)
+        return out
+
+
+    # ---------------------------------------------------------------- session generators
+    HISTS = [[], [["c", "f"]], [["c", "f"], ["c", "g"]], [["c", "g"], ["c", "f"]],
+             [["c", "f"], ["c", "g"], ["d", "f"], ["c", "f"]],            # f removed and re-created: columns g, f
+             [["c", "f"], ["c", "g"], ["d", "g"], ["c", "g"]],            # same layout as f, g after a removal
+             [["c", "f"], ["c", "g"], ["c", "h"]], [["c", "h"], ["c", "g"], ["c", "f"]],
+             [["c", "f"], ["c", "g"], ["c", "h"], ["d", "g"]],            # f, h (h moved from column 2 to 1)
+             [["c", "f"], ["c", "g"], ["c", "h"], ["d", "f"], ["c", "f"]],  # g, h, f
+             [["c", "g"], ["c", "f"], ["c", "f"]]]                        # a second creation of an existing name changes nothing
+
+    @staticmethod
+    def sim_op(pool, op, designate):
+        """reference effect of an operator on the generator's view of the pool ({"ids", "names"}); False when the clean code raises /
+        the arguments are outside the property's scope (the session ends there)"""
+        kind, src = op[0], pool[op[1]]
+        ids, n = src["ids"], len(src["ids"])
+        if kind in NEW_OPS:
+            other = pool[op[2]]["ids"] if kind in ("add", "spantrack") else None
+            want = designate(op, ids, other)
+            if kind == "slice" and op[4] is not None and op[4] < 0:
+                want = ids[slice(op[2], op[3], op[4])]
+            if want is None:
+                return False
+            names = src["names"] if (kind != "add" or src["names"] == pool[op[2]]["names"]) else []
+            pool.append({"ids": list(want), "names": list(names)})
+            return True
+        if kind == "create":
+            if n and LATE not in src["names"]:
+                src["names"] = src["names"] + [LATE]
+            return False            # always the last operation of a session
+        if kind in READ_OPS:
+            if kind == "get":
+                return -n <= op[2] < n
+            if kind == "read":
+                return op[2] in src["names"] and -n <= op[3] < n
+            return op[2] in src["names"]
+        if kind == "sort":
+            src["ids"] = sorted(ids, key=lambda r: r[1])
+        elif kind == "insert":
+            new = [op[2], op[3]]
+            i = sum(1 for r in ids if r[1] <= op[3]) if nondecreasing([r[1] for r in ids]) else n
+            src["ids"] = ids[:i] + [new] + ids[i:]
+        elif kind == "insertat":
+            l = list(ids)
+            l.insert(op[2], [op[3], op[4]])
+            src["ids"] = l
+        elif kind == "addobs":
+            src["ids"] = ids + [[op[2], op[3]]]
+        else:
+            idx = list(op[2]) if kind == "remove" else [0] if kind == "removefirst" else [n - 1] if kind == "removelast" else [op[2]]
+            if any(not -n <= i < n for i in idx) or (kind == "remove" and len(set(idx)) < len(idx)):
+                return kind == "remove" and all(0 <= i < n for i in idx)
+            idx = [i % n for i in idx]
+            src["ids"] = [r for i, r in enumerate(ids) if i not in idx]
+        return True
+
+    def random_op(self, rng, pool, newtag, scope=True):
+        """a random operator on the (generator's view of the) pool; arguments inside the property's scope unless scope=False"""
+        k = rng.randrange(len(pool))
+        n = len(pool[k]["ids"])
+        kind = rng.choice(NEW_OPS + NEW_OPS + INPLACE_OPS + ("read", "get", "column"))
+        lo = 0 if scope else -2
+        if kind == "extract":
+            if n == 0 and scope:
+                return ["gt", k, 0]
+            a = rng.randrange(lo, n + (0 if scope else 2))
+            return ["extract", k, a, rng.randrange(max(a - 1, lo, 0) if scope else -1, n + (0 if scope else 2))] if n else ["extract", k, 0, -1]
+        if kind == "span":
+            return ["span", k, rng.randrange(9), rng.randrange(9)]
+        if kind in ("spantrack", "add"):
+            return [kind, k, rng.randrange(len(pool))]
+        if kind == "step":
+            return ["step", k, rng.randrange(1 if scope else -1, n + 3)]
+        if kind == "pattern":
+            return ["pattern", k, [rng.randrange(2) for _ in range(rng.randrange(1 if scope else 0, 5))]]
+        if kind in ("gt", "lt"):
+            return [kind, k, rng.randrange(lo, n + 3)]
+        if kind == "slice":
+            c = rng.choice([None, None, 1, 2, 3] + ([] if scope else [-1, -2, 0]))
+            return ["slice", k, rng.choice([None] + list(range(-n - 1, n + 2))), rng.choice([None] + list(range(-n - 1, n + 2))), c]
+        if kind == "sort":
+            return ["sort", k]
+        if kind in ("insert", "addobs"):
+            return [kind, k, newtag, rng.randrange(9)]
+        if kind == "insertat":
+            return ["insertat", k, rng.randrange(lo, n + (1 if scope else 3)), newtag, rng.randrange(9)]
+        if kind == "remove":
+            if scope:
+                return ["remove", k, rng.sample(range(n), rng.randrange(0, min(n, 3) + 1))]
+            return ["remove", k, [rng.randrange(-1, n + 1) for _ in range(rng.randrange(0, 4))]]
+        if kind in ("removeobs", "pop", "get"):
+            if n == 0 and scope:
+                return ["addobs", k, newtag, rng.randrange(9)]
+            return [kind, k, rng.randrange(0 if scope else -n - 1, n + (0 if scope else 1))]
+        if kind in ("removefirst", "removelast"):
+            if n == 0 and scope:
+                return ["addobs", k, newtag, rng.randrange(9)]
+            return [kind, k]
+        names = pool[k]["names"]
+        if kind == "read":
+            if not names or n == 0:
+                return ["sort", k]
+            return ["read", k, rng.choice(names), rng.randrange(0 if scope else -n, n), rng.choice(["get", "ni", "in"])]
+        if not names:
+            return ["sort", k]
+        return ["column", k, rng.choice(names)]
+
+    def session_cases(self, rng, tier):
+        out = []
+        S = lambda tracks, ops: out.append({"kind": "session", "tracks": tracks, "ops": ops})
+        FG = [["c", "f"], ["c", "g"]]
+        # ---- (a) the entry points of the statement that the single-operator streams do not reach, one operation, every argument
+        for n in range(0, 5):
+            for times in ([1, 3, 5, 7][:n], [3, 1, 3, 1][:n]):
+                T = [{"times": times, "hist": FG if n else []}]
+                rg = [None] + list(range(-n - 1, n + 2))
+                if times == [1, 3, 5, 7][:n]:
+                    for a in rg:
+                        for b in rg:
+                            for c in (None, 1, 2, 3, -1, -2, 0):
+                                S(T, [["slice", 0, a, b, c]])
+                for i in range(-n - 2, n + 3):
+                    S(T, [["get", 0, i]])
+                    S(T, [["removeobs", 0, i]])
+                    S(T, [["pop", 0, i]])
+                    for ts in (0, 4, 8):
+                        S(T, [["insertat", 0, i, 900, ts]])
+                    for nm in NAMES:
+                        for form in ("get", "ni", "in"):
+                            S(T, [["read", 0, nm, i, form]])
+                for nm in NAMES:
+                    S(T, [["column", 0, nm]])
+                S(T, [["removefirst", 0]])
+                S(T, [["removelast", 0]])
+                S(T, [["addobs", 0, 900, 0]])
+                S(T, [["addobs", 0, 900, 8]])
+                for m in range(0, 3):
+                    for tm in itertools.product(V4, repeat=m):
+                        S(T + [{"times": list(tm), "hist": []}], [["spantrack", 0, 1]])
+        # ---- (b) every pair of feature histories x `+`, then a second operator on the sum; every history x every operator
+        for h1 in self.HISTS:
+            for h2 in self.HISTS:
+                for t1, t2 in (([1, 3], [5, 7]), ([5], [3, 3, 1])):
+                    T = [{"times": t1, "hist": h1}, {"times": t2, "hist": h2}]
+                    S(T, [["add", 0, 1]])
+                    S(T, [["add", 1, 0], ["add", 2, 2], ["sort", 3]])
+                    S(T, [["add", 0, 1], rng.choice([["gt", 2, 1], ["step", 2, 2], ["slice", 2, 1, None, None], ["extract", 2, 1, 2], ["lt", 2, 1]]), ["add", 3, 1]])
+                    # an EMPTY operand that still carries a table (what `>` / `<` / extract leave)
+                    S(T, [["gt", 0, 5], ["add", 2, 1]])
+                    S(T, [["lt", 1, 9], ["add", 0, 2]])
+                    S(T, [["gt", 0, 5], ["lt", 1, 9], ["add", 2, 3]])
+        for h in self.HISTS:
+            for times in ([5, 1, 3, 3], [1, 3, 5, 7, 7]):
+                n = len(times)
+                T = [{"times": times, "hist": h}]
+                for op in (["extract", 0, 1, 2], ["span", 0, 2, 6], ["step", 0, 2], ["pattern", 0, [1, 0, 1]], ["gt", 0, 1], ["lt", 0, 1],
+                           ["slice", 0, 1, None, 2], ["sort", 0], ["insert", 0, 900, 4], ["insertat", 0, 1, 900, 4], ["addobs", 0, 900, 4],
+                           ["remove", 0, [2, 0]], ["removeobs", 0, 1], ["removefirst", 0], ["removelast", 0], ["pop", 0, 2]):
+                    nxt = 1 if op[0] in NEW_OPS else 0
+                    if nxt:
+                        # a feature created afterwards on the result / on the source must not appear in the other's table
+                        S(T, [op, ["create", 1]])
+                        S(T, [op, ["create", 0]])
+                    S(T, [op, rng.choice([["gt", nxt, 1], ["step", nxt, 2], ["sort", nxt], ["slice", nxt, None, -1, None], ["insert", nxt, 901, rng.randrange(9)]])])
+        # ---- (c) random chains: the result of one operator is an operand of the next
+        for _ in range(4000 if tier == "quick" else 40000):
+            tracks, pool = [], []
+            for k in range(rng.randrange(1, 4)):
+                n = rng.choice([0, 1, 2, 3, 3, 4, 5, 6])
+                times = sorted(rng.choice(V4) for _ in range(n)) if rng.random() < 0.5 else [rng.choice(V4) for _ in range(n)]
+                hist = [list(x) for x in rng.choice(self.HISTS)] if n else []
+                tracks.append({"times": times, "hist": hist})
+                pool.append({"ids": [[s_tag(k, i), v] for i, v in enumerate(times)], "names": s_layout(hist)[0]})
+            ops = []
+            alive = True
+            for j in range(rng.randrange(2, 8)):
+                op = self.random_op(rng, pool, 900 + j, scope=rng.random() < 0.93)
+                ops.append(op)
+                if not self.sim_op(pool, op, self.designate):
+                    alive = False
+                    break
+            if alive and rng.random() < 0.3:
+                # (not on a track holding the same observation twice, e.g. t + t: the one shared object would get the column twice)
+                cand = [k for k, t in enumerate(pool) if t["ids"] and len({r[0] for r in t["ids"]}) == len(t["ids"])]
+                if cand:
+                    ops.append(["create", rng.choice(cand)])
+            S(tracks, ops)
+        return out
+
+    def radix_cases(self, rng, tier):
+        """sortRadix allocates 60000 + 60 + 24 + 31 + 12 buckets (and one per year of the span) per call (70 ms): a few hundred cases"""
+        out = []
+        R = lambda fs: out.append({"kind": "radix", "times": [0] * len(fs), "fields": [list(f) for f in fs]})
+        mid, d = [2001, 6, 15, 12, 30, 30, 500], [1, 5, 10, 11, 29, 29, 499]
+        for j in range(7):
+            # later in field j, earlier in EVERY less significant field (and the reverse order of presentation)
+            a = list(mid)
+            b = [mid[i] + d[i] if i == j else (mid[i] - d[i] if i > j else mid[i]) for i in range(7)]
+            R([a, b]); R([b, a]); R([b, a, b, a])
+            for k in range(j + 1, 7):
+                c = [mid[i] + d[i] if i == j else (mid[i] - d[i] if i == k else mid[i]) for i in range(7)]
+                R([c, a]); R([a, c])
+        for n in range(0, 4):
+            R([mid] * n)
+        for ys in ([2070, 2000], [1969, 2000, 1971], [2069, 2070], [1970, 1969], [2100, 1900, 2000, 1900], [1869], [2500, 1]):
+            R([[y] + mid[1:] for y in ys])
+        lo, hi = [mid[i] - d[i] for i in range(7)], [mid[i] + d[i] for i in range(7)]
+        for _ in range(120 if tier == "quick" else 2500):
+            n = rng.choice([1, 2, 3, 4, 5, 8, 16, 17, 40])
+            mode = rng.random()
+            fs = []
+            for _i in range(n):
+                if mode < 0.4:
+                    f = [rng.choice([lo[i], hi[i]]) for i in range(7)]
+                elif mode < 0.8:
+                    f = [rng.choice([1970, 1999, 2000, 2024, 2069]), rng.randrange(1, 13), rng.randrange(1, 29), rng.randrange(24), rng.randrange(60),
+                         rng.randrange(60), rng.choice([0, 1, 500, 999])]
+                else:
+                    f = [2024, 2, rng.choice([28, 29]), rng.choice([0, 23]), rng.choice([0, 59]), rng.choice([0, 59]), rng.choice([0, 999])]
+                fs.append(f)
+            if mode > 0.8 or rng.random() < 0.15:
+                # years on both sides of 1970..2069 (the year buckets once were 1970..2069: fix b323645)
+                for _j in range(rng.randrange(1, 3)):
+                    fs[rng.randrange(n)][0] = rng.choice([2070, 2100, 1969, 1900, 1869, 1, 2500])
+            if rng.random() < 0.3:
+                fs = sorted(fs)
+            elif rng.random() < 0.15:
+                fs = sorted(fs, reverse=True)
+            R(fs)
         return out
 
     def describe(self, case):
+        if case["kind"] == "session":
+            return {"kind": "session", "operations": len(case["ops"]), "first_op": case["ops"][0][0] if case["ops"] else "-",
+                    "tracks": len(case["tracks"])}
+        if case["kind"] == "radix":
+            n = len(case["fields"])
+            return {"kind": "radix", "size": n if n <= 8 else ">8"}
         t = {"kind": case["kind"]}
         n = len(case["times"])
         t["size"] = n if n <= 8 else ("2^k" if n & (n - 1) == 0 else "2^k-1" if (n + 1) & n == 0 else "2^k+1" if (n - 1) & (n - 2) == 0 else ">8")
@@ -228,6 +589,10 @@ class P(Prop):
         return t
 
     def nontrivial(self, case):
+        if case["kind"] == "session":
+            return any(len(t["times"]) >= 2 for t in case["tracks"]) and bool(case["ops"])
+        if case["kind"] == "radix":
+            return len(case["fields"]) >= 2
         return len(case["times"]) >= 2 or case["kind"] == "ilog"
 
     # ---------------------------------------------------------------- implementation
@@ -237,6 +602,10 @@ class P(Prop):
         if k == "ilog":
             # the expression of Track.__getInsertionIndex, evaluated by the same CPython / libm (trusted-contract check)
             return {"j": [(int)(math.log(N) / math.log(2)) for N in range(case["lo"], case["hi"])]}
+        if k == "session":
+            return self.impl_session(case)
+        if k == "radix":
+            return self.impl_radix(case)
         tr = self.mk(case["times"], names)
         if k == "index":
             res = []
@@ -291,11 +660,28 @@ class P(Prop):
     @staticmethod
     def untrack(p, n):
         pts = [] if p == "_" else [[int(x) for x in o.split(":")] for o in p.split(",")]
-        return {"pts": pts, "names": [] if n == "_" else n.split(",")}
+        names, cols = [], []
+        if n != "_":
+            for e in n.split(","):
+                nm, c = e.split(":")
+                names.append(nm)
+                cols.append(int(c))
+        return {"pts": pts, "names": names, "cols": cols, "reads": reads_from_raw(pts, names, cols)}
+
+    @staticmethod
+    def track_dict(rows, names):
+        """the dump of a track whose columns are its names in order (what `mk` builds)"""
+        names = list(names)
+        cols = list(range(len(names)))
+        return {"pts": rows, "names": names, "cols": cols, "reads": reads_from_raw(rows, names, cols)}
 
     def requests(self, case):
         k = case["kind"]
         names = case.get("names", [])
+        if k == "session":
+            return self.requests_session(case)
+        if k == "radix":
+            return ["C04.radix %s" % (";".join(",".join(map(str, self.radix_digits(f))) for f in case["fields"]) or "_")]
         p = self.tok_pts(obs_rows(case["times"], names))
         nm = self.tok_names(names)
         if k == "ilog":
@@ -327,7 +713,17 @@ class P(Prop):
     def decode(self, case, replies):
         k = case["kind"]
         names = case.get("names", [])
-        src = {"pts": obs_rows(case["times"], names), "names": list(names)}
+        if k == "session":
+            return self.decode_session(case, replies)
+        if k == "radix":
+            r = replies[0]
+            if r == "bad-request":
+                raise ValueError(r)
+            if r.startswith("err:"):
+                return {"err": r, "rows": [[i, list(f)] for i, f in enumerate(case["fields"])]}
+            order = [] if r == "_" else [int(x) for x in r.split(",")]
+            return {"rows": [[i, list(case["fields"][i])] for i in order]}
+        src = self.track_dict(obs_rows(case["times"], names), names)
         if k == "ilog":
             return {"j": [int(x) for x in replies[0].split(",")]}
         if k == "index":
@@ -349,7 +745,7 @@ class P(Prop):
             return {"src": self.untrack(*r.split(" "))}
         if k == "remove":
             p, ret = r.split(" ")
-            after = {"pts": self.untrack(p, "_")["pts"], "names": list(names)}
+            after = self.track_dict(self.untrack(p, "_")["pts"], names)
             if ret.startswith("err:"):
                 return {"err": ret, "src": after}
             return {"ret": int(ret), "src": after}
@@ -357,13 +753,40 @@ class P(Prop):
             return {"err": r, "src": src}
         out = {"out": self.untrack(*r.split(" ")), "src": src}
         if k == "concat":
-            out["src2"] = {"pts": obs_rows(case["times2"], case["names2"], 50), "names": list(case["names2"])}
+            out["src2"] = self.track_dict(obs_rows(case["times2"], case["names2"], 50), case["names2"])
         return out
+
+    @staticmethod
+    def _late_view(case, out):
+        """sessions ending with a late creation: the model has no shared observations, so in that last step the RAW feature lists of
+        the other tracks are left out of the comparison (what they read by name is compared)"""
+        if not (case["ops"] and case["ops"][-1][0] == "create" and len(out.get("steps", [])) == len(case["ops"])):
+            return out
+        k = case["ops"][-1][1]
+        last = out["steps"][-1]
+        pool = [d if i == k else dict(d, pts=[r[:2] for r in d["pts"]]) for i, d in enumerate(last["pool"])]
+        return dict(out, steps=out["steps"][:-1] + [dict(last, pool=pool)])
 
     def compare(self, case, impl_out, model_out):
         if impl_out == model_out:
             return None
         k = case["kind"]
+        if k == "session" and "init" in impl_out and self._late_view(case, impl_out) == self._late_view(case, model_out):
+            return None
+        if k == "session" and "init" in impl_out and impl_out["init"] == model_out.get("init"):
+            # freedom left by the property: the order of EQUAL timestamps after sort() (numpy's sort is not stable beyond 16
+            # elements, the model's is). When the first difference is such a sort, the implementation's whole session is validated
+            # by the oracle instead of being compared with the model's choice.
+            for j, (a, b) in enumerate(zip(impl_out["steps"], model_out["steps"])):
+                if a != b:
+                    op = case["ops"][j]
+                    if op[0] == "sort" and a["out"] == b["out"] == "done" and len(a["pool"]) == len(b["pool"]):
+                        same_but = all(x == y for i, (x, y) in enumerate(zip(a["pool"], b["pool"])) if i != op[1])
+                        ta, tb = a["pool"][op[1]], b["pool"][op[1]]
+                        if same_but and sorted(ta["pts"]) == sorted(tb["pts"]) and ta["names"] == tb["names"] and ta["cols"] == tb["cols"] \
+                                and len(set(r[1] for r in ta["pts"])) < len(ta["pts"]) and self.spec(case, impl_out) is None:
+                            return None
+                    break
         # freedom left by the property: the place of the new observation among EQUAL timestamps, the order of equal
         # timestamps after sort -> the implementation's answer is validated by the spec, not required to equal the model's
         if k == "sort" and "err" not in impl_out and len(set(case["times"])) < len(case["times"]):
@@ -378,7 +801,456 @@ class P(Prop):
                 return None
         return "impl=%s model=%s" % (str(impl_out)[:300], str(model_out)[:300])
 
+
+    # ================================================================ sessions: operators applied in sequence
+    # case = {"kind": "session", "tracks": [{"times": [...], "hist": [["c", "f"], ["d", "f"], ...]}, ...], "ops": [[name, k, args...], ...]}
+    # The k-th initial track holds the observations tagged 100k, 100k+1, ...; its features are created / removed in the order
+    # of `hist` through createAnalyticalFeature / removeAnalyticalFeature (so the column layout is whatever the code makes it).
+    # An operator designates its operand(s) by position in the pool; a track it returns is appended to the pool.
+    # The session stops at the first operation that raises.
+    def new_obs(self, tr, tag, t):
+        """a new observation for `tr`: it holds s_val(tag, nm) for every name, laid out as the track lists its names"""
+        o = self.Obs(self.ENU(float(tag), 2.0 * tag + 0.5, -float(tag)), self.TS(t))
+        o.features = [s_val(tag, nm) for nm in tr.getListAnalyticalFeatures()]
+        return o
+
+    @staticmethod
+    def obs_tag(o):
+        x = o.position.getX()
+        return int(x) if x == int(x) else "bad-position:%r" % x
+
+    def build_session(self, case):
+        pool = []
+        for k, sp in enumerate(case["tracks"]):
+            n = len(sp["times"])
+            tr = self.Track([self.mk_obs(s_tag(k, i), v, []) for i, v in enumerate(sp["times"])])
+            gen = 0
+            for a, nm in sp["hist"]:
+                if a == "c":
+                    tr.createAnalyticalFeature(nm, [s_val(s_tag(k, i), nm, gen) for i in range(n)])
+                    gen += 1
+                else:
+                    tr.removeAnalyticalFeature(nm)
+            pool.append(tr)
+        return pool
+
+    def apply_op(self, pool, op):
+        kind, tr = op[0], pool[op[1]]
+        if kind == "extract":
+            pool.append(tr.extract(op[2], op[3]))
+        elif kind == "span":
+            pool.append(tr.extractSpanTime(self.TS(op[2]), self.TS(op[3])))
+        elif kind == "spantrack":
+            pool.append(tr.extractSpanTime(pool[op[2]]))
+        elif kind == "add":
+            pool.append(tr + pool[op[2]])
+        elif kind == "step":
+            pool.append(tr % op[2])
+        elif kind == "pattern":
+            pool.append(tr % [bool(b) for b in op[2]])
+        elif kind == "gt":
+            pool.append(tr > op[2])
+        elif kind == "lt":
+            pool.append(tr < op[2])
+        elif kind == "slice":
+            pool.append(tr[slice(op[2], op[3], op[4])])
+        elif kind == "sort":
+            tr.sort()
+        elif kind == "insert":
+            tr.insertObs(self.new_obs(tr, op[2], op[3]))
+        elif kind == "insertat":
+            tr.insertObs(self.new_obs(tr, op[3], op[4]), op[2])
+        elif kind == "addobs":
+            tr.addObs(self.new_obs(tr, op[2], op[3]))
+        elif kind == "remove":
+            return ["count", tr.removeObsList(list(op[2]))]
+        elif kind == "removeobs":
+            return ["count", tr.removeObs(op[2])]
+        elif kind == "removefirst":
+            return ["count", tr.removeFirstObs()]
+        elif kind == "removelast":
+            return ["count", tr.removeLastObs()]
+        elif kind == "pop":
+            return ["obs", self.obs_tag(tr.popObs(op[2]))]
+        elif kind == "get":
+            return ["obs", self.obs_tag(tr[op[2]])]
+        elif kind == "read":
+            return ["value", self.read(tr, op[2], op[3], op[4])]
+        elif kind == "column":
+            return ["values", list(tr[op[2]])]
+        elif kind == "create":
+            tr.createAnalyticalFeature(LATE, LATE_VAL)
+        else:
+            raise ValueError(kind)
+        return "done"
+
+    def impl_session(self, case):
+        pool = self.build_session(case)
+        out = {"init": [self.dump(t) for t in pool], "steps": []}
+        for op in case["ops"]:
+            try:
+                o = self.apply_op(pool, op)
+            except BaseException as e:
+                if isinstance(e, KeyboardInterrupt):
+                    raise
+                o = err_kind(e)
+            out["steps"].append({"out": o, "pool": [self.dump(t) for t in pool]})
+            if isinstance(o, str) and o.startswith("err:"):
+                break
+        return out
+
+    @staticmethod
+    def build_ops(case):
+        ops = []
+        for k, sp in enumerate(case["tracks"]):
+            n, gen = len(sp["times"]), 0
+            for a, nm in sp["hist"]:
+                if a == "c":
+                    ops.append("create/%d/%s/%s" % (k, nm, ",".join(str(s_val(s_tag(k, i), nm, gen)) for i in range(n)) or "_"))
+                    gen += 1
+                else:
+                    ops.append("delete/%d/%s" % (k, nm))
+        return ops
+
+    @staticmethod
+    def enc_op(op):
+        kind, k = op[0], op[1]
+        oi = lambda v: "N" if v is None else str(v)
+        vals = lambda tag: ",".join("%s=%d" % (nm, s_val(tag, nm)) for nm in NAMES)
+        if kind in ("extract", "span"):
+            return "%s/%d/%d/%d" % (kind, k, op[2], op[3])
+        if kind in ("spantrack", "add", "step", "gt", "lt", "removeobs", "pop", "get"):
+            return "%s/%d/%d" % (kind, k, op[2])
+        if kind == "pattern":
+            return "pattern/%d/%s" % (k, "".join(map(str, op[2])) or "_")
+        if kind == "slice":
+            return "slice/%d/%s/%s/%s" % (k, oi(op[2]), oi(op[3]), oi(op[4]))
+        if kind in ("sort", "removefirst", "removelast"):
+            return "%s/%d" % (kind, k)
+        if kind in ("insert", "addobs"):
+            return "%s/%d/%d/%d/%s" % (kind, k, op[2], op[3], vals(op[2]))
+        if kind == "insertat":
+            return "insertat/%d/%d/%d/%d/%s" % (k, op[2], op[3], op[4], vals(op[3]))
+        if kind == "remove":
+            return "remove/%d/%s" % (k, ",".join(map(str, op[2])) or "_")
+        if kind == "read":
+            return "read/%d/%s/%d" % (k, op[2], op[3])
+        if kind == "column":
+            return "column/%d/%s" % (k, op[2])
+        if kind == "create":
+            return "create/%d/%s/%s" % (k, LATE, ",".join([str(LATE_VAL)] * 80))
+        raise ValueError(kind)
+
+    def requests_session(self, case):
+        tracks = ";".join("T" + self.tok_pts([[s_tag(k, i), v] for i, v in enumerate(sp["times"])]) for k, sp in enumerate(case["tracks"]))
+        ops = self.build_ops(case) + [self.enc_op(op) for op in case["ops"]]
+        return ["C04.session %s %s" % (tracks or "_", ";".join(ops) or "_")]
+
+    def decode_session(self, case, replies):
+        r = replies[0]
+        if r == "bad-request":
+            raise ValueError(r)
+        nbuild = len(self.build_ops(case))
+        pool = [{"pts": [[s_tag(k, i), v] for i, v in enumerate(sp["times"])], "names": [], "cols": [], "reads": {}} for k, sp in enumerate(case["tracks"])]
+        out = {"steps": []}
+        steps = [] if r == "_" else r.split(";")
+        if len(steps) != nbuild + len(case["ops"]) and not (steps and steps[-1].startswith("err:")):
+            raise ValueError("%d steps for %d operations" % (len(steps), nbuild + len(case["ops"])))
+
+        def rd(x):
+            return int(x[1:]) if x[0] == "v" else x
+        for j, st in enumerate(steps):
+            o, k, p, tb, reads = st.split("|")
+            if k != "-":
+                d = self.untrack(p, tb)
+                d["reads"] = {}
+                if reads != "_":
+                    for part in reads.split("+"):
+                        nm, vs = part.split("=")
+                        d["reads"][nm] = [] if vs == "_" else [rd(x) for x in vs.split(",")]
+                pool = list(pool)
+                if int(k) == len(pool):
+                    pool.append(d)
+                else:
+                    pool[int(k)] = d
+            if j < nbuild:
+                if o != "done":
+                    raise ValueError("the model refuses the construction step %d: %s" % (j, o))
+                if j == nbuild - 1:
+                    out["init"] = pool
+                continue
+            if o.startswith("count=") or o.startswith("obs="):
+                o = [o.split("=")[0], int(o.split("=")[1])]
+            elif o.startswith("value="):
+                o = ["value", rd(o[6:])]
+            elif o.startswith("values="):
+                vs = [] if o[7:] == "_" else [rd(x) for x in o[7:].split(",")]
+                o = "err:index" if "I" in vs else ["values", vs]
+            out["steps"].append({"out": o, "pool": pool})
+            if isinstance(o, str) and o.startswith("err:"):
+                break
+        if nbuild == 0:
+            out["init"] = [{"pts": [[s_tag(k, i), v] for i, v in enumerate(sp["times"])], "names": [], "cols": [], "reads": {}} for k, sp in enumerate(case["tracks"])]
+        return {"init": out["init"], "steps": out["steps"]}
+
+    # ---- what an operator designates (plain Python on lists: independent of tracklib)
+    @staticmethod
+    def designate(op, ids, other=None):
+        """the observations (as [tag, time]) that the operator's arguments designate on a track holding `ids`, or None when the
+        arguments designate nothing the property speaks of (negative counts, an index of no observation, zero step, ...)"""
+        kind, n = op[0], len(ids)
+        if kind == "extract":
+            a, b = op[2], op[3]
+            return (ids[a:b + 1] if a <= b else []) if (0 <= a and b < n) else None
+        if kind == "span":
+            lo, hi = min(op[2], op[3]), max(op[2], op[3])
+            return [r for r in ids if lo <= r[1] <= hi]
+        if kind == "spantrack":
+            if not other:
+                return None
+            lo, hi = min(other[0][1], other[-1][1]), max(other[0][1], other[-1][1])
+            return [r for r in ids if lo <= r[1] <= hi]
+        if kind == "add":
+            return ids + other
+        if kind == "step":
+            return [r for i, r in enumerate(ids) if i % op[2] == 0] if op[2] >= 1 else None
+        if kind == "pattern":
+            pat = op[2]
+            return [r for i, r in enumerate(ids) if pat[i % len(pat)]] if pat else ([] if n == 0 else None)
+        if kind == "gt":
+            return ids[op[2]:] if op[2] >= 0 else None
+        if kind == "lt":
+            return ids[:max(0, n - op[2])] if op[2] >= 0 else None
+        if kind == "slice":
+            return ids[slice(op[2], op[3], op[4])] if (op[4] is None or op[4] >= 1) else None
+        raise ValueError(kind)
+
+    def spec_session(self, case, out):
+        if "init" not in out:
+            return "the session raised %s %s" % (out.get("err"), out.get("detail", ""))
+        own = {}
+        for k, sp in enumerate(case["tracks"]):
+            names, gen = s_layout(sp["hist"])
+            d = out["init"][k]
+            want = [[s_tag(k, i), v] for i, v in enumerate(sp["times"])]
+            if [r[:2] for r in d["pts"]] != want or d["names"] != names:
+                return "initial track %d (history %s) is %s" % (k, sp["hist"], d)
+            for i in range(len(want)):
+                own[s_tag(k, i)] = {nm: s_val(s_tag(k, i), nm, gen[nm]) for nm in names}
+        for op in case["ops"]:
+            tag = {"insert": 2, "addobs": 2, "insertat": 3}.get(op[0])
+            if tag is not None:
+                own[op[tag]] = {nm: s_val(op[tag], nm) for nm in NAMES}
+
+        def ownf(tag, nm):
+            return LATE_VAL if nm == LATE else own.get(tag, {}).get(nm)
+        for k, d in enumerate(out["init"]):
+            m = self.reads_own(d, ownf, "initial track %d" % k)
+            if m:
+                return m
+        pool = out["init"]
+        for j, st in enumerate(out["steps"]):
+            m = self.spec_step(case["ops"][j], pool, st, ownf)
+            if m:
+                return "operation %d %s: %s" % (j, case["ops"][j], m)
+            pool = st["pool"]
+        return None
+
+    def spec_step(self, op, pre, st, ownf):
+        kind, k = op[0], op[1]
+        o, post = st["out"], st["pool"]
+        src = pre[k]
+        ids = [r[:2] for r in src["pts"]]
+        n = len(ids)
+        err = isinstance(o, str) and o.startswith("err:")
+
+        def unchanged(skip=None):
+            for i, d in enumerate(pre):
+                if i != skip and (i >= len(post) or post[i] != d):
+                    return "track %d of the pool was modified: %s became %s" % (i, d, post[i] if i < len(post) else None)
+            return None
+        if kind in NEW_OPS:
+            m = unchanged()
+            if m:
+                return m
+            other = [r[:2] for r in pre[op[2]]["pts"]] if kind in ("add", "spantrack") else None
+            want = self.designate(op, ids, other)
+            if want is None:
+                return None
+            if err:
+                return "raised %s on a track of %d observations" % (o, n)
+            if len(post) != len(pre) + 1:
+                return "no track was returned"
+            res = post[-1]
+            if [r[:2] for r in res["pts"]] != want:
+                return "on %s returns %s, designated: %s" % (ids, [r[:2] for r in res["pts"]], want)
+            m = self.reads_own(res, ownf, "the result")
+            if m:
+                return m
+            if kind == "add" and src["names"] != pre[op[2]]["names"]:
+                return None        # different feature tables: which table the sum carries is not specified
+            if res["names"] != src["names"]:
+                return "returns the feature-name table %s instead of %s" % (res["names"], src["names"])
+            return None
+        if len(post) != len(pre):
+            return "the pool has %d tracks instead of %d" % (len(post), len(pre))
+        if kind == "create":
+            # a feature created on ONE track afterwards: no other track may list it (the tables are copies), and every track reads as
+            # before under the names it lists. (Observations are shared between a track and the tracks extracted from it: their raw
+            # feature lists do grow, which no read by name can see.)
+            view = lambda d: ([r[:2] for r in d["pts"]], d["names"], d["reads"])
+            for i, d in enumerate(pre):
+                if i != k and view(post[i]) != view(d):
+                    return "track %d of the pool was modified: %s became %s" % (i, view(d), view(post[i]))
+            if n == 0 or LATE in src["names"]:
+                return None
+            if any(len(r) - 2 != len(src["names"]) for r in src["pts"]):
+                # the track already holds observations with more columns than names (a sum of tracks with different features has
+                # an empty table, the columns stay): what a creation does there is C01's subject, not this property's
+                return None
+            if err:
+                return "createAnalyticalFeature raised %s" % o
+            res = post[k]
+            if [r[:2] for r in res["pts"]] != ids or res["names"] != src["names"] + [LATE]:
+                return "the track became %s" % (view(res),)
+            return self.reads_own(res, ownf, "the track after the creation")
+        if kind in READ_OPS:
+            m = unchanged()
+            if m:
+                return m
+            if kind == "get":
+                i = op[2]
+                if -n <= i < n:
+                    return None if o == ["obs", ids[i][0]] else "track[%d] on %s gives %s" % (i, ids, o)
+                return None
+            if kind == "read":
+                nm, i = op[2], op[3]
+                if nm in src["names"] and -n <= i < n:
+                    w = ownf(ids[i][0], nm)
+                    return None if (o == ["value", w] and not isinstance(o[1], bool)) else "observation %s reads %s = %s, its own value is %s" % (ids[i][0], nm, o, w)
+                return None
+            if kind == "column":
+                nm = op[2]
+                if nm in src["names"]:
+                    w = [ownf(r[0], nm) for r in ids]
+                    return None if o == ["values", w] else "track[%r] gives %s, the observations hold %s" % (nm, o, w)
+                return None
+        # ---- in-place operations
+        m = unchanged(skip=k)
+        if m:
+            return m
+        res = post[k]
+        got = [r[:2] for r in res["pts"]]
+        if res["names"] != src["names"]:
+            return "the feature-name table changed from %s to %s" % (src["names"], res["names"])
+        m = self.reads_own(res, ownf, "the track after the operation")
+        if m:
+            return m
+        if kind == "sort":
+            if err:
+                return "sort raised %s" % o
+            if sorted(got) != sorted(ids):
+                return "sort of %s gives %s: not the same observations" % (ids, got)
+            if not nondecreasing([r[1] for r in got]):
+                return "sort of %s gives the times %s" % (ids, [r[1] for r in got])
+            return None
+        if kind in ("insert", "insertat", "addobs"):
+            new = [op[3], op[4]] if kind == "insertat" else [op[2], op[3]]
+            if err:
+                return "raised %s" % o
+            if got.count(new) != 1 or [r for r in got if r != new] != ids or len(got) != n + 1:
+                return "on %s gives %s: not the old observations in order plus the new one" % (ids, got)
+            if kind == "insert" and nondecreasing([r[1] for r in ids]) and not nondecreasing([r[1] for r in got]):
+                return "insertion of t=%d into the sorted times %s gives %s" % (new[1], [r[1] for r in ids], [r[1] for r in got])
+            if kind == "addobs" and got != ids + [new]:
+                return "addObs gives %s" % got
+            if kind == "insertat" and 0 <= op[2] <= n and got != ids[:op[2]] + [new] + ids[op[2]:]:
+                return "insertObs(obs, %d) on %s gives %s" % (op[2], ids, got)
+            return None
+        idx = list(op[2]) if kind == "remove" else [0] if kind == "removefirst" else [n - 1] if kind == "removelast" else [op[2]]
+        if any(not 0 <= i < n for i in idx):
+            # no such observation: outside the property's scope, only require that nothing is corrupted
+            return None if is_subsequence(got, ids) else "on %s leaves %s" % (ids, got)
+        if err:
+            return "raised %s on %d observations" % (o, n)
+        want = [r for i, r in enumerate(ids) if i not in idx]
+        if len(set(idx)) < len(idx):
+            if (got == ids and o == ["count", 0]) or got == want:
+                return None
+            return "removal of %s on %s leaves %s" % (idx, ids, got)
+        if got != want:
+            return "removal of %s on %s leaves %s, the other observations are %s" % (idx, ids, got, want)
+        if kind == "pop":
+            return None if o == ["obs", ids[idx[0]][0]] else "popObs(%d) on %s returned %s" % (idx[0], ids, o)
+        if o != ["count", len(idx)]:
+            return "removal of %s returned %s" % (idx, o)
+        return None
+
+    # ================================================================ sortRadix
+    @staticmethod
+    def radix_digits(f):
+        y, mo, d, h, mi, sec, ms = f
+        return [sec * 1000 + ms, mi, h, d - 1, mo - 1, y]
+
+    def impl_radix(self, case):
+        obs = [self.Obs(self.ENU(float(i), 2.0 * i + 0.5, -float(i)), self.ObsTime(*f)) for i, f in enumerate(case["fields"])]
+        tr = self.Track(obs)
+        out = {}
+        try:
+            tr.sortRadix()
+        except BaseException as e:
+            if isinstance(e, KeyboardInterrupt):
+                raise
+            out["err"] = err_kind(e)
+        rows = []
+        for o in tr.getObsList():
+            t = o.timestamp
+            rows.append([self.obs_tag(o), [t.year, t.month, t.day, t.hour, t.min, t.sec, t.ms]])
+        out["rows"] = rows
+        return out
+
+    def spec_radix(self, case, out):
+        fields = [list(f) for f in case["fields"]]
+        rows = out.get("rows")
+        if rows is None:
+            return "sortRadix raised %s" % out.get("err")
+        if any(not (isinstance(r[0], int) and 0 <= r[0] < len(fields) and r[1] == fields[r[0]]) for r in rows):
+            return "sortRadix altered an observation: %s" % rows
+        if "err" in out:
+            return "sortRadix raised %s on %s" % (out["err"], fields)
+        if sorted(r[0] for r in rows) != list(range(len(fields))):
+            return "sortRadix of %s gives %s: not the same observations" % (fields, rows)
+        if not nondecreasing([r[1] for r in rows]):
+            return "sortRadix of %s gives the times %s" % (fields, [r[1] for r in rows])
+        return None
+
     # ---------------------------------------------------------------- oracle (transfer)
+    @staticmethod
+    def own_single(case):
+        """single-operator cases: the value observation `tag` holds for feature `nm` (None = it has no such feature)"""
+        names, names2 = list(case.get("names", [])), list(case.get("names2", []))
+        concat = case["kind"] == "concat"
+
+        def own(tag, nm):
+            ns = names2 if (concat and 50 <= tag < NEW_TAG) else names
+            return 10 * tag + ns.index(nm) if nm in ns else None
+        return own
+
+    @staticmethod
+    def reads_own(d, own, what):
+        """every observation of the dumped track reads, under every name the track lists, the value it holds for that name"""
+        for nm in d["names"]:
+            col = d.get("reads", {}).get(nm)
+            if col is None or len(col) != len(d["pts"]):
+                return "%s lists feature %r but its reads are %r" % (what, nm, col)
+            for r, v in zip(d["pts"], col):
+                w = own(r[0], nm)
+                if w is None:
+                    return "%s lists feature %r, which observation %s does not have (read gives %r)" % (what, nm, r[0], v)
+                if v != w or isinstance(v, bool):
+                    return "%s: observation %s reads %s = %r, its own value is %r" % (what, r[0], nm, v, w)
+        return None
+
     def spec(self, case, out):
         k = case["kind"]
         if k == "ilog":
@@ -388,6 +1260,10 @@ class P(Prop):
                 if N >= 2 and not (j >= 1 and 2 ** j <= N):
                     return "(int)(log(%d)/log(2)) = %d: the first step 2^(j-1) does not satisfy 2*2^(j-1) <= N" % (N, j)
             return None
+        if k == "session":
+            return self.spec_session(case, out)
+        if k == "radix":
+            return self.spec_radix(case, out)
         names = list(case.get("names", []))
         rows = obs_rows(case["times"], names)
         n = len(rows)
@@ -399,6 +1275,10 @@ class P(Prop):
             return "feature-name table of the track changed from %s to %s" % (names, src["names"])
         if not inplace and src["pts"] != rows:
             return "the source track was modified: %s became %s" % (rows, src["pts"])
+        own = self.own_single(case)
+        m = self.reads_own(src, own, "the track after the operation" if inplace else "the source track")
+        if m:
+            return m
         if k == "index":
             for ts, r in zip(case["tss"], out["ids"]):
                 if not isinstance(r, int):
@@ -465,7 +1345,7 @@ class P(Prop):
             want = rows + rows2
             what = "+"
             s2 = out.get("src2")
-            if s2 is not None and (s2["pts"] != rows2 or s2["names"] != list(case["names2"])):
+            if s2 is not None and (s2["pts"] != rows2 or s2["names"] != list(case["names2"]) or self.reads_own(s2, own, "t2")):
                 return "+ modified its right operand: %s" % s2
         elif k == "step":
             if case["n"] >= 1:
@@ -493,6 +1373,10 @@ class P(Prop):
         got = out["out"]
         if got["pts"] != want:
             return "%s on %s returns %s, designated: %s" % (what, rows, got["pts"], want)
+        # whatever feature names the result lists, every observation reads ITS OWN value under each of them
+        m = self.reads_own(got, own, "the result of " + what)
+        if m:
+            return m
         if k == "concat" and names != list(case["names2"]):
             return None               # different feature tables: which table the sum carries is not specified
         if got["names"] != names:
@@ -500,7 +1384,46 @@ class P(Prop):
         return None
 
     # ---------------------------------------------------------------- shrinking / search
+    def shrink_session(self, case):
+        ops, tracks = case["ops"], case["tracks"]
+        for j in range(1, len(ops)):                      # a prefix
+            yield dict(case, ops=ops[:j])
+        for j in range(len(ops) - 1):                     # drop an operation that creates no track
+            if ops[j][0] not in NEW_OPS:
+                yield dict(case, ops=ops[:j] + ops[j + 1:])
+        used = {0} | {op[1] for op in ops} | {op[2] for op in ops if op[0] in ("add", "spantrack")}
+        for k in range(len(tracks) - 1, -1, -1):          # drop an initial track nobody designates
+            if k not in used:
+                sh = lambda i: i - 1 if i > k else i
+                new_ops = [[op[0], sh(op[1])] + ([sh(op[2])] if op[0] in ("add", "spantrack") else list(op[2:3])) + list(op[3:]) for op in ops]
+                yield dict(case, tracks=tracks[:k] + tracks[k + 1:], ops=new_ops)
+        for k, sp in enumerate(tracks):
+            if sp["hist"]:
+                for j in range(len(sp["hist"])):
+                    h = sp["hist"][:j] + sp["hist"][j + 1:]
+                    names = []
+                    ok = True
+                    for a, nm in h:                         # a removal must still find its feature
+                        if a == "d" and nm not in names:
+                            ok = False
+                        elif a == "d":
+                            names.remove(nm)
+                        elif nm not in names:
+                            names.append(nm)
+                    if ok:
+                        yield dict(case, tracks=tracks[:k] + [dict(sp, hist=h)] + tracks[k + 1:])
+            if len(sp["times"]) > 1:
+                yield dict(case, tracks=tracks[:k] + [dict(sp, times=sp["times"][:-1])] + tracks[k + 1:])
+
     def shrink(self, case):
+        if case["kind"] == "session":
+            yield from self.shrink_session(case)
+            return
+        if case["kind"] == "radix":
+            fs = case["fields"]
+            for i in range(len(fs)):
+                yield dict(case, fields=fs[:i] + fs[i + 1:], times=[0] * (len(fs) - 1))
+            return
         if case["kind"] == "ilog":
             if case["hi"] - case["lo"] > 1:
                 mid = (case["lo"] + case["hi"]) // 2
@@ -549,7 +1472,13 @@ class P(Prop):
 
     def mutate(self, case, rng):
         k = case["kind"]
+        if k in ("session", "radix"):
+            return
         times = case["times"]
+        if k == "concat":
+            for t1 in ([], [1, 3]):
+                for t2 in ([5], [3, 7]):
+                    yield dict(case, times=t1, times2=t2)
         if k in ("insert", "index"):
             st = sorted(times)
             tss = sorted(set([t + d for t in st for d in (-1, 0, 1)] + [0]))
